@@ -1,14 +1,101 @@
 /-
-  ICG.Driver.Norm — line protocol of domain `norm` (stub: to be filled in by the domain's owner).
+  ICG.Driver.Norm — line protocol of domain `norm` (normalize.py / graph_game.py), stateless.
+
+    norm icg <n> <values>                  table `IncompleteCooperativeGame(n); set_values(values)`, then `normalize_game`
+                                           → `I=<grand − Σ singletons> S=<singleton values> L=<lower column> U=<upper column>`
+    norm icgpart <n> <ids> <values>        `set_known_values(values, ids)` then `normalize_game` (error kinds of unknown rows)
+    norm closed <n> <values>               the closed form `normVal` → `V=<values>`
+    norm graph <n> <matrix row-major>      `GraphCooperativeGame(matrix)`, `normalize_game`
+                                           → `I=… S=… M=<matrix after> V=<values after>`
+    norm gtable <n> <matrix row-major>     values of the graph game before normalisation → `V=…`
+    norm denorm <n> <g> <singles> <values> `denormalize_game` on the full table of `values` → `L=… U=…`
+    norm gdenorm <n> <g> <matrix>          `_denormalize_graph_game` → `M=… V=…`
+  errors: `err:<kind>`; anything unparsable: `bad-op`.
 -/
+import ICG.Model.Normalize
 import ICG.Driver.Proto
 namespace ICG.Driver.Norm
-open ICG ICG.Proto
+open ICG ICG.Proto ICG.Norm
 
 abbrev State := Unit
 def init : State := ()
 
+def matOf (n : Nat) (l : List Rat) : Nat → Nat → Rat :=
+  let a := l.toArray
+  fun r c => if h : r * n + c < a.size then a[r * n + c] else 0
+
+def matList (n : Nat) (m : Nat → Nat → Rat) : List Rat :=
+  (List.range n).flatMap (fun r => (List.range n).map (fun c => m r c))
+
+def showInfo (info : Rat × List Rat) : String := s!"I={showRat info.1} S={showRats info.2}"
+
+def showTable (t : Table Rat) : String := s!"L={showRats t.getLowerBounds} U={showRats t.getUpperBounds}"
+
+def answer (r : Except Err String) : String :=
+  match r with
+  | .ok s => s
+  | .error e => toString e
+
 def handle (s : State) : List String → State × String
+  | ["icg", n, vals] =>
+    match n.toNat?, parseRats? vals with
+    | some n, some vals =>
+      (s, answer do
+        let t ← (Table.init (α := Rat) n).setValues vals none
+        let (info, t') ← normalizeGame t.compactT
+        pure s!"{showInfo info} {showTable t'}")
+    | _, _ => (s, "bad-op")
+  | ["icgpart", n, ids, vals] =>
+    match n.toNat?, parseNats? ids, parseRats? vals with
+    | some n, some ids, some vals =>
+      (s, answer do
+        let t ← match (Table.init (α := Rat) n).setKnownValues vals (some ids) with
+          | .ok t => pure t
+          | .error (e, _) => throw e
+        let (info, t') ← normalizeGame t.compactT
+        pure s!"{showInfo info} {showTable t'}")
+    | _, _, _ => (s, "bad-op")
+  | ["closed", n, vals] =>
+    match n.toNat?, parseRats? vals with
+    | some n, some vals =>
+      if vals.length = 2 ^ n then
+        let a := vals.toArray
+        let v : Nat → Rat := fun c => if h : c < a.size then a[c] else 0
+        (s, s!"V={showRats ((allCoalitions n).map (normVal n v))}")
+      else (s, "bad-op")
+    | _, _ => (s, "bad-op")
+  | ["graph", n, mat] =>
+    match n.toNat?, parseRats? mat with
+    | some n, some mat =>
+      if mat.length = n * n then
+        let g := GraphGame.ofMatrix n (matOf n mat)
+        let (info, g') := normalizeGameGraph g
+        (s, s!"{showInfo info} M={showRats (matList n g'.m)} V={showRats (graphValues g')}")
+      else (s, "bad-op")
+    | _, _ => (s, "bad-op")
+  | ["gtable", n, mat] =>
+    match n.toNat?, parseRats? mat with
+    | some n, some mat =>
+      if mat.length = n * n then
+        (s, s!"V={showRats (graphValues (GraphGame.ofMatrix n (matOf n mat)))}")
+      else (s, "bad-op")
+    | _, _ => (s, "bad-op")
+  | ["denorm", n, g, singles, vals] =>
+    match n.toNat?, parseRat? g, parseRats? singles, parseRats? vals with
+    | some n, some g, some singles, some vals =>
+      (s, answer do
+        let t ← (Table.init (α := Rat) n).setValues vals none
+        let t' ← denormalize t.compactT (g, singles)
+        pure (showTable t'))
+    | _, _, _, _ => (s, "bad-op")
+  | ["gdenorm", n, g, mat] =>
+    match n.toNat?, parseRat? g, parseRats? mat with
+    | some n, some g, some mat =>
+      if mat.length = n * n then
+        let gm := denormalizeGraph (GraphGame.ofMatrix n (matOf n mat)) (g, [])
+        (s, s!"M={showRats (matList n gm.m)} V={showRats (graphValues gm)}")
+      else (s, "bad-op")
+    | _, _, _ => (s, "bad-op")
   | _ => (s, "bad-op")
 
 end ICG.Driver.Norm
